@@ -296,13 +296,18 @@ ParseImpl(s) ==
 \* position at which its type is balanced again
 BasePairsFromDotBracket(s) ==
   LET n == Len(s)
-      types == ({OpenType(s[k]) : k \in 1..n} \cup {CloseType(s[k]) : k \in 1..n}) \ {0}
-      Bal(t, a, b) == Cardinality({k \in a..b : OpenType(s[k]) = t}) - Cardinality({k \in a..b : CloseType(s[k]) = t})
-      wellFormed == /\ \A k \in 1..n : s[k] = Dot \/ OpenType(s[k]) # 0 \/ CloseType(s[k]) # 0
-                    /\ \A t \in types : Bal(t, 1, n) = 0 /\ \A k \in 1..n : Bal(t, 1, k) >= 0
-      Partner(i) == Min({j \in (i + 1)..n : Bal(OpenType(s[i]), i, j) = 0})
+      ot == TLCEval([k \in 1..n |-> OpenType(s[k])])
+      ct == TLCEval([k \in 1..n |-> CloseType(s[k])])
+      types == ({ot[k] : k \in 1..n} \cup {ct[k] : k \in 1..n}) \ {0}
+      \* pre[t][k + 1] = opening minus closing brackets of type t among the first k characters
+      pre == TLCEval([t \in types |->
+                FoldLeft(LAMBDA acc, k : Append(acc, acc[k] + (IF ot[k] = t THEN 1 ELSE IF ct[k] = t THEN -1 ELSE 0)),
+                         <<0>>, [k \in 1..n |-> k])])
+      wellFormed == /\ \A k \in 1..n : s[k] = Dot \/ ot[k] # 0 \/ ct[k] # 0
+                    /\ \A t \in types : pre[t][n + 1] = 0 /\ \A k \in 1..n : pre[t][k + 1] >= 0
+      Partner(i) == Min({j \in (i + 1)..n : pre[ot[i]][j + 1] = pre[ot[i]][i]})
   IN IF ~wellFormed THEN Result("Rejected", <<>>)
-     ELSE Result("ok", SortPairs({<<i - 1, Partner(i) - 1>> : i \in {k \in 1..n : OpenType(s[k]) # 0}}))
+     ELSE Result("ok", SortPairs({<<i - 1, Partner(i) - 1>> : i \in {k \in 1..n : ot[k] # 0}}))
 
 Law_ParseImplDecl(s) == ParseImpl(s) = BasePairsFromDotBracket(s)
 \* what an accepted notation yields: every bracket in exactly one pair, opening before closing, same
